@@ -13,7 +13,7 @@ use std::{
     marker::PhantomData,
 };
 
-use rand::{rngs::StdRng, SeedableRng};
+use rand::{rngs::StdRng, seq::SliceRandom, SeedableRng};
 use serde_json::json;
 use shred::{DefaultProvider, PanicHandler, Read, ReadExpect, Resource, ResourceId, SystemData, World, Write, WriteExpect};
 use shredh::{
@@ -39,31 +39,58 @@ fn main() {
         std::process::exit(2);
     }
     let by_id: HashMap<u32, &CaseDesc> = desc.cases.iter().map(|c| (c.id, c)).collect();
-    if by_id.len() != CASES.len() {
-        eprintln!("descriptor has {} cases, binary {}", by_id.len(), CASES.len());
+    if by_id.len() != CASES.len() + 2 * TWINS.len() {
+        eprintln!("descriptor has {} cases, binary {} + 2 x {} twins", by_id.len(), CASES.len(), TWINS.len());
         std::process::exit(2);
     }
+    let desc_of = |id: u32| -> &CaseDesc {
+        by_id.get(&id).copied().unwrap_or_else(|| {
+            eprintln!("no descriptor for case {}", id);
+            std::process::exit(2)
+        })
+    };
+    // per-case generator: a case behaves the same wherever it stands in the list
+    let rng_of = |id: u32| StdRng::seed_from_u64(seed.wrapping_mul(1_000_003).wrapping_add(id as u64));
     let mut w = BufWriter::new(File::create(out).unwrap());
     let mut st = Stats::default();
     let mut samples = Vec::new();
     for ops in CASES.iter() {
-        let d = by_id.get(&ops.id).unwrap_or_else(|| {
-            eprintln!("no descriptor for case {}", ops.id);
-            std::process::exit(2)
-        });
-        // per-case generator: a case behaves the same wherever it stands in the list
-        let mut rng = StdRng::seed_from_u64(seed.wrapping_mul(1_000_003).wrapping_add(ops.id as u64));
+        let d = desc_of(ops.id);
         let mut ev = Vec::new();
-        zoo::run_case(ops, d, &mut rng, &mut ev, &mut st);
+        zoo::run_case(ops, d, &mut rng_of(ops.id), &mut ev, &mut st, 1);
         if samples.len() < 2 && (ops.id as u64 + seed) % 97 == 0 {
             samples.push(json!({"ty": d.ty, "origin": d.origin, "events": ev.iter().skip(1).take(4).collect::<Vec<_>>()}));
         }
         zoo::write_zoo_events(&mut w, &ev);
     }
+    // twins: the same generic type instantiated from two sibling blocks with same-named resource types
+    for pass in [1u32, 2] {
+        if pass == 2 {
+            // second pass: declarations of every type again, in another order, after everything ran
+            let mut order: Vec<usize> = (0..CASES.len()).collect();
+            order.shuffle(&mut StdRng::seed_from_u64(seed ^ 0x5eed));
+            for i in order {
+                let ops = CASES[i];
+                let mut ev = Vec::new();
+                zoo::run_case(ops, desc_of(ops.id), &mut rng_of(ops.id), &mut ev, &mut st, 2);
+                zoo::write_zoo_events(&mut w, &ev);
+            }
+        }
+        for twin in TWINS.iter() {
+            twin(&mut |ops: &Ops, slots: Vec<&'static Slot>| {
+                let mut ev = Vec::new();
+                zoo::run_case_with(ops, desc_of(ops.id), slots, &mut rng_of(ops.id), &mut ev, &mut st, pass);
+                if pass == 1 {
+                    st.twin_blocks += 1;
+                }
+                zoo::write_zoo_events(&mut w, &ev);
+            });
+        }
+    }
     w.flush().unwrap();
     println!(
         "{}",
-        json!({"hash": GEN_HASH, "cases": st.cases, "events": st.events, "fetch_runs": st.fetch_runs, "setup_runs": st.setup_runs, "exec_runs": st.exec_runs,
+        json!({"hash": GEN_HASH, "cases": st.cases, "events": st.events, "fetch_runs": st.fetch_runs, "setup_runs": st.setup_runs, "exec_runs": st.exec_runs, "second_pass": st.second_pass, "twin_blocks": st.twin_blocks,
                "fetch_ok": st.fetch_ok, "fetch_missing": st.fetch_missing, "fetch_borrow": st.fetch_borrow,
                "fetch_other": st.fetch_other, "with_held": st.with_held, "model_runs": st.model_runs,
                "model_matched": st.model_matched, "model_mismatch": st.model_mismatch,
